@@ -3,7 +3,8 @@
 run the registered quick checks, record which check notices, and restore the tree.
 
 usage: tools/sensitivity.py [name-substring ...]      (no argument: all mutants)
-       tools/sensitivity.py --seeded                  (the kept sub-agent changes under /verif/seeded)
+       tools/sensitivity.py --seeded [--target-only]  (the kept sub-agent changes under /verif/seeded; --target-only runs
+                                                       only the check of the property the change was written against)
 Results: /verif/sensitivity/results.json and results.md
 """
 import json
@@ -176,6 +177,9 @@ def main():
             sys.exit(2)
         REPO = wt
         ENV_EXTRA["DMSIM_REPO"] = wt
+    target_only = "--target-only" in args
+    if target_only:
+        args.remove("--target-only")
     os.makedirs(os.path.join(ROOT, "sensitivity"), exist_ok=True)
     if dirty():
         print("refusing: /repo working tree is not clean")
@@ -196,9 +200,11 @@ def main():
                     results.append({"mutant": d, "error": "patch does not apply: " + r.stderr[-300:]})
                     restore()
                     continue
-                res = run_checks(PROPS)
-                restore()
                 exp = [meta.get("property")]
+                res = run_checks(exp if target_only else PROPS)
+                restore()
+                for p in PROPS:
+                    res.setdefault(p, {"exit": None, "violation_lines": 0, "classes": [], "wall_s": 0})
                 results.append({"mutant": d, "kind": "seeded", "expected": exp, "checks": res,
                                 "noticed_by": [p for p in PROPS if res[p]["exit"] == 1],
                                 "caught": any(res[p]["exit"] == 1 for p in exp)})
@@ -247,7 +253,7 @@ def main():
                 if r["checks"][p]["classes"]:
                     cls = r["checks"][p]["classes"][0]
                     break
-            cells = " | ".join("**alarm**" if r["checks"][p]["exit"] == 1 else ("ok" if r["checks"][p]["exit"] == 0 else f"exit {r['checks'][p]['exit']}") for p in PROPS)
+            cells = " | ".join("**alarm**" if r["checks"][p]["exit"] == 1 else ("ok" if r["checks"][p]["exit"] == 0 else ("not run" if r["checks"][p]["exit"] is None else f"exit {r['checks'][p]['exit']}")) for p in PROPS)
             f.write(f"| {r['mutant']} | {','.join(r['expected'])} | {cells} | {cls[:90]} |\n")
     missed = [r["mutant"] for r in results if "error" not in r and not r["caught"]]
     print("missed:", missed)
